@@ -175,6 +175,8 @@ def run_impl(art, spec, objs=None, ops_list=None):
             elif op[0] == "remove":
                 r = ar.remove(objs[op[1]])
                 code = 1 if r is True else 0 if r is False else 3
+            elif op[0] == "batch":
+                ar, code = offer_batch(ar, [objs[i] for i in op[1]], op[2])
             else:
                 raise ValueError(op)
             content = list(iter(ar))
@@ -185,6 +187,73 @@ def run_impl(art, spec, objs=None, ops_list=None):
     finally:
         ops.math = real_math
     return steps, list(shim.tape), problems
+
+
+# every public way of offering solutions besides add(): append, extend, += (Archive() takes no contents)
+BATCH_VIAS = ["extend_list", "extend_list", "extend_tuple", "extend_generator", "extend_iter", "iadd_list", "iadd_generator", "iadd_tuple"]
+SINGLE_VIAS = ["append", "append", "iadd_single", "extend_list", "iadd_list"]
+
+
+def offer_batch(ar, batch, via):
+    """offers the individuals of `batch` through the named entry point; returns (the archive variable afterwards, code):
+    append / extend: code 2 whatever they return (their return value is not part of the property); `+=`: 4 when the
+    statement leaves the variable bound to the same archive object, 3 otherwise (the new binding is then followed)"""
+    if via == "append":
+        assert len(batch) == 1
+        ar.append(batch[0])
+        return ar, 2
+    if via.startswith("extend"):
+        arg = {"extend_list": list, "extend_tuple": tuple, "extend_generator": lambda b: (x for x in b), "extend_iter": lambda b: iter(list(b))}[via](batch)
+        ar.extend(arg)
+        return ar, 2
+    before = ar
+    if via == "iadd_single":
+        assert len(batch) == 1
+        ar += batch[0]
+    else:
+        ar += {"iadd_list": list, "iadd_tuple": tuple, "iadd_generator": lambda b: (x for x in b)}[via](batch)
+    if ar is before:
+        return ar, 4
+    return (ar if hasattr(ar, "add") and hasattr(ar, "__iter__") and hasattr(ar, "truncate") else before), 3
+
+
+def offered_of(op):
+    """individual indices an operation offers, in order"""
+    return [op[1]] if op[0] == "add" else list(op[1]) if op[0] == "batch" else []
+
+
+def op_key(op):
+    return tuple(tuple(x) if isinstance(x, list) else x for x in op)
+
+
+def regroup(rng, flat, p_batch=0.6):
+    """a list of individual indices -> add / batch operations offering them in this order through random entry points"""
+    out, k = [], 0
+    while k < len(flat):
+        if rng.random() < p_batch:
+            n = rng.choice([1, 2, 2, 3, 3, 4, 5, 6, 8])
+            chunk = flat[k:k + n]
+            out.append(["batch", chunk, rng.choice(SINGLE_VIAS if len(chunk) == 1 else BATCH_VIAS)])
+            k += len(chunk)
+        else:
+            out.append(["add", flat[k]])
+            k += 1
+    return out
+
+
+def batchify(rng, spec):
+    """re-groups every run of consecutive add operations of the history into add / append / extend / += operations"""
+    out, run_ = [], []
+    for op in spec["ops"] + [None]:
+        if op is not None and op[0] == "add":
+            run_.append(op[1])
+            continue
+        out.extend(regroup(rng, run_))
+        run_ = []
+        if op is not None:
+            out.append(op)
+    spec["ops"] = out
+    spec["entry_points"] = "mixed"
 
 
 def ind_tapes(spec, res):
@@ -248,20 +317,26 @@ def oracle(spec, res, steps):
     prev = []
     for k, op in enumerate(ops_list):
         ids, code = steps[k]
-        if op[0] == "add":
-            i = op[1]
-            inserted = ids.count(i) == prev.count(i) + 1 and len(ids) >= 1 and ids[-1] == i
-            if (code == 1) != inserted:
-                return {"kind": "return_value", "step": k,
-                        "what": "add() returned %s but the solution was %sinserted (contents %r -> %r)" % (
-                            {1: "True", 0: "False"}.get(code, "a non-boolean"), "" if inserted else "not ", prev, ids)}
+        if op[0] in ("add", "batch"):
+            if op[0] == "add":
+                i = op[1]
+                inserted = ids.count(i) == prev.count(i) + 1 and len(ids) >= 1 and ids[-1] == i
+                if (code == 1) != inserted:
+                    return {"kind": "return_value", "step": k,
+                            "what": "add() returned %s but the solution was %sinserted (contents %r -> %r)" % (
+                                {1: "True", 0: "False"}.get(code, "a non-boolean"), "" if inserted else "not ", prev, ids)}
+            elif code == 3:
+                return {"kind": "iadd_rebinds", "step": k,
+                        "what": "`archive += ...` left the variable bound to another object than the archive (contents %r -> %r)" % (prev, ids)}
             if pure:
-                if i not in dominated:
-                    dominated[i] = any(dominates(cs[j], cs[i]) for j in offered)
-                    for j in offered:
-                        if not dominated[j] and dominates(cs[i], cs[j]):
-                            dominated[j] = True
-                offered.append(i)
+                # a batch (append / extend / +=) offers every one of its elements: the statement is about everything offered
+                for i in offered_of(op):
+                    if i not in dominated:
+                        dominated[i] = any(dominates(cs[j], cs[i]) for j in offered)
+                        for j in offered:
+                            if not dominated[j] and dominates(cs[i], cs[j]):
+                                dominated[j] = True
+                    offered.append(i)
                 for j in ids:
                     if j not in dominated:
                         return {"kind": "foreign_member", "step": k, "what": "archive contains a solution that was never offered: %r" % (ids,)}
@@ -274,8 +349,8 @@ def oracle(spec, res, steps):
                         cnt = sum(1 for j in ids if same(cs[o], cs[j]))
                         if cnt == 0:
                             return {"kind": "maximal_missing", "step": k,
-                                    "what": "after %d additions the offered solution %r is dominated by no offered solution but the archive %r has no member with these costs" % (
-                                        k + 1, cs[o], [cs[j] for j in ids])}
+                                    "what": "after %d operations (%d solutions offered, the last through %s) the offered solution %r is dominated by no offered solution but the archive %r has no member with these costs" % (
+                                        k + 1, len(offered), op[0] if op[0] == "add" else op[2], cs[o], [cs[j] for j in ids])}
                         if cnt > 1:
                             return {"kind": "duplicate_member", "step": k,
                                     "what": "after %d additions the archive holds %d members with the cost vector %r" % (k + 1, cnt, cs[o])}
@@ -316,9 +391,10 @@ def first_raising_prefix(art, spec):
 
 
 def pure_adds(spec):
+    """the leading operations that only offer solutions (add and the bulk entry points)"""
     out = []
     for op in spec["ops"]:
-        if op[0] != "add":
+        if op[0] not in ("add", "batch"):
             break
         out.append(op)
     return out
@@ -480,6 +556,8 @@ def enc_op(op):
         return "OpAdd %d" % op[1]
     if op[0] == "truncate":
         return "OpTrunc %d %s" % (op[1], bl(op[2]))
+    if op[0] == "batch":
+        return "OpBatch %s %s" % (ll(op[1], nl), bl(op[2].startswith("iadd")))
     return "OpRemove %d" % op[1]
 
 
@@ -554,7 +632,11 @@ def run(ctx):
           "evictions_with_earlier_eq_member_kept": 0, "evictions_with_later_eq_member_kept": 0,
           "eq_but_not_exactly_equal_pairs": 0, "max_members_sharing_a_vector": 0,
           "remove_of_non_member_hits_eq_member": 0, "remove_hits_earlier_eq_member_than_itself": 0,
-          "truncate_drops_member_with_eq_member_kept": 0}
+          "truncate_drops_member_with_eq_member_kept": 0,
+          # red-team round 4: every public way of offering solutions (append, extend, += next to add)
+          "histories_with_bulk_entry_points": 0, "batches": 0, "batch_elements": 0, "max_batch": 0, "entry_points": {},
+          "batches_with_a_dropped_element_before_an_inserted_one": 0, "batches_with_nothing_inserted": 0,
+          "batches_starting_with_a_rejected_element": 0, "permutations_regrouped_into_batches": 0}
     len_hist = {}
     shrunk = 0
 
@@ -623,6 +705,8 @@ def run(ctx):
         nontrivial = False
         if spec.get("shared_vectors"):
             st["shared_vector_histories"] += 1
+        if any(op[0] == "batch" for op in spec["ops"]):
+            st["histories_with_bulk_entry_points"] += 1
         st["individuals_built_by_copy"] += sum(1 for d in spec["inds"] if d.get("copy_of") is not None)
         st["eq_but_not_exactly_equal_pairs"] += sum(1 for a in range(len(vecs)) for b in range(a) if vecs[a] != vecs[b] and vec_eq(vecs[a], vecs[b]))
         css = [list(p) + [mk] for (p, mk) in res]
@@ -668,6 +752,29 @@ def run(ctx):
                     nontrivial = True
                     if gone[-1] - gone[0] >= len(gone):
                         st["evict_nonadjacent"] += 1
+            elif op[0] == "batch":
+                st["batches"] += 1
+                st["batch_elements"] += len(op[1])
+                st["max_batch"] = max(st["max_batch"], len(op[1]))
+                st["entry_points"][op[2]] = st["entry_points"].get(op[2], 0) + 1
+                new = [j for j in ids if j not in prev]
+                for i in op[1]:
+                    if i in seen:
+                        st["same_object_offered_again"] += 1
+                    seen.add(i)
+                if not new:
+                    st["batches_with_nothing_inserted"] += 1
+                # an element of the batch that is not a member afterwards (rejected, or inserted and evicted by a later
+                # one) and is followed in the batch by an element that was inserted and stayed
+                kept_pos = [q for q, i in enumerate(op[1]) if i in new]
+                drop_pos = [q for q, i in enumerate(op[1]) if i not in ids]
+                if kept_pos and drop_pos and min(drop_pos) < max(kept_pos):
+                    st["batches_with_a_dropped_element_before_an_inserted_one"] += 1
+                    nontrivial = True
+                if op[1] and op[1][0] not in ids and len(op[1]) > 1:
+                    st["batches_starting_with_a_rejected_element"] += 1
+                if [j for j in prev if j not in ids] or (prev and drop_pos):
+                    nontrivial = True
             elif op[0] == "truncate":
                 st["truncates"] += 1
                 if len(ids) < len(prev):
@@ -685,12 +792,12 @@ def run(ctx):
         n_ops = len(spec["ops"])
         len_hist[n_ops] = len_hist.get(n_ops, 0) + 1
         ctx.count((spec["comparator"], tuple(spec.get("eps") or ()), tuple(tuple(p) + (int(mk),) for p, mk in res),
-                   tuple(tuple(o) for o in spec["ops"]), tuple(spec["feat"]),
+                   tuple(op_key(o) for o in spec["ops"]), tuple(spec["feat"]),
                    tuple(tuple(v) for v in vecs) if spec.get("vec") is not None else None), nontrivial=nontrivial)
         if len(ctx.samples) < 4 and nontrivial and 4 <= n_ops <= 9:
             ctx.sample(mt)
         # direct oracle
-        used = sorted(set(op[1] for op in spec["ops"] if op[0] == "add"))
+        used = sorted(set(i for op in spec["ops"] for i in offered_of(op)))
         if spec["comparator"] == "epsilon" and not eps_preconditions(spec, res, used):
             st["eps_oracle_skipped_unseparated"] += 1
             return
@@ -699,11 +806,15 @@ def run(ctx):
             fail(spec, f)
             return
         adds = pure_adds(spec)
-        if len(adds) >= 2 and len(set(op[1] for op in adds)) >= 2:
+        flat = [i for op in adds for i in offered_of(op)]
+        if len(flat) >= 2 and len(set(flat)) >= 2:
             final = cost_set(res, steps[len(adds) - 1][0])
-            for _ in range(2):
-                perm = list(adds)
-                rng.shuffle(perm)
+            for rnd in range(2):
+                flat2 = list(flat)
+                rng.shuffle(flat2)
+                # the same solutions in another order, offered one by one or (second round) through any entry points
+                perm = [["add", i] for i in flat2] if rnd == 0 and not spec.get("entry_points") else regroup(rng, flat2)
+                st["permutations_regrouped_into_batches"] += any(o[0] == "batch" for o in perm)
                 try:
                     psteps, _, _ = run_impl(art, spec, objs, ops_list=perm)
                 except Exception as e:
@@ -723,7 +834,10 @@ def run(ctx):
     for spec in load_corpus():
         do_case(spec, from_corpus=True)
     for _ in range(n_cases):
-        do_case(gen_history(rng, nmax, shared=rng.random() < 0.35))
+        spec = gen_history(rng, nmax, shared=rng.random() < 0.35)
+        if rng.random() < 0.45:
+            batchify(rng, spec)
+        do_case(spec)
 
     ctx.coq_compare("c04", HEADER, "c04_case", "c04_obs", "c04_run", "c04_obs_eqb", cases, expected, meta,
                     shard=ctx.pick(60, 150))
